@@ -206,7 +206,48 @@ def c13(tier, seed):
     return c.finish()
 
 
-PROPS = {"C10": c10, "C13": c13, "C06": c06, "C08": c08, "C09": c09, "C01": c01, "C02": c02, "C03": c03, "C04": c04, "C05": c05}
+def pci_family(c, mode, module, cfg, seed, tier, max_events=400):
+    out = os.path.join(WORK, c.pid, f"pci-{mode}.ndjson")
+    idx = run_harness("pci", out, seed, tier, [mode])
+    v = validate_traces(module, cfg, out, idx, max_events=max_events)
+    c.add_validation(v, f"pci/{mode}")
+    c.states += v["states"]
+    c.samples.append({"family": f"pci/{mode}", "scenario": idx["scenarios"][0], "summary": idx["summaries"][0]})
+    if not c.violations:
+        os.remove(out)
+    return idx
+
+
+def c11(tier, seed):
+    c = Check("C11", tier, seed)
+    c.rule = "TLC (PciMC): limb-arithmetic containment test = mathematical offset+length<=size over all 16-bit-boundary patterns incl. sums wrapping in 32 bits, wrapping formula differs (vacuity), FirstCap over all lists from a menu; traces: thousands of configurations (capability lists with duplicates / short / foreign / reserved-type / reserved-bar entries in any order x BAR tables with I/O, 32/64-bit, unallocated, sizes up to 2^63 x weird 32-bit offsets/lengths/multipliers) through PciTransport::new over both configuration access front ends, result + mapped regions validated by Pci.tla; every Transport operation on accepted devices (multipliers 0..8, permuted notify offsets, with/without device config, reset lag) matched against the common-cfg access patterns; all 11 drivers over the real PCI transport (C08/C09 families)"
+    c.assumptions = ["register-level virtio-pci device and PCI function models in harness/src/pci.rs follow Virtio 1.2 4.1 / PCI 3.0", "width of accesses to 64-bit common-cfg fields is not constrained by the property (the crate uses single 64-bit accesses; noted in DESIGN.md)"]
+    c.add_mc(run_tlc_mc("PciMC", "PciMC.cfg", workers=4, timeout=600))
+    i1 = pci_family(c, "new", "PciTrace", "PciTrace.cfg", seed, tier)
+    pci_family(c, "ops", "PciTrace", "PciTrace.cfg", seed, tier, max_events=1500)
+    acc = sum(s.get("accepted", 0) for s in i1["summaries"])
+    tot = sum(s.get("configs", 0) for s in i1["summaries"])
+    c.evaluations = tot
+    c.distinct = tot
+    c.extra["configurations"] = tot
+    c.extra["configurations_accepted_by_the_transport"] = acc
+    return c.finish()
+
+
+def c12(tier, seed):
+    c = Check("C12", tier, seed)
+    c.rule = "TLC (PciBusMC): CAM/ECAM offset has a left inverse (injective) and stays in the window for all device/function/register x buses {0,1,127,255}; traces: bar_info/bars on ~220 function models (I/O incl. 16-bit decoders, 32-bit, below-1MiB, 64-bit, reserved type; sizes 2^2..2^63; every slot; random addresses; 9 initial command values) with every config access validated (no sizing while decoding, everything restored, result = model); all 256x32x8x64 offsets of both mechanisms checked strictly increasing/in window in the harness and sampled into TLC; the real MmioCam routed through the inverse; 40 bus populations and 60 capability chains"
+    c.assumptions = ["function model: BAR = (writable mask, flag bits); the property's 'size' is the lowest writable address bit"]
+    c.add_mc(run_tlc_mc("PciBusMC", "PciBusMC.cfg", workers=4, timeout=600))
+    idx = pci_family(c, "bus", "PciBusTrace", "PciBusTrace.cfg", seed, tier, max_events=2000)
+    s0 = idx["summaries"][0]
+    c.evaluations = s0.get("bar_info_calls", 0) + s0.get("cam_addresses", 0)
+    c.distinct = s0.get("bar_info_calls", 0)
+    c.extra["cam_addresses_checked"] = s0.get("cam_addresses", 0)
+    return c.finish()
+
+
+PROPS = {"C11": c11, "C12": c12, "C10": c10, "C13": c13, "C06": c06, "C08": c08, "C09": c09, "C01": c01, "C02": c02, "C03": c03, "C04": c04, "C05": c05}
 
 
 def main():
